@@ -6,7 +6,7 @@
      dealer_socket.rs     prepare_full_multipart_send_sequence, send (DealerSendTransaction::Buffering)
      rep_socket.rs        send_multipart (saved routing prefix + payload, with_capacity, flag loop)
      req_socket.rs        send / send_multipart
-     router_socket.rs     send_multipart (strategies of patterns/router.rs, `last_mut` clears MORE only on the last frame)
+     router_socket.rs     send_multipart (strategies of patterns/router.rs, then the same flag loop as PUSH)
    The list-level functions (norm_flags, clear_last, strat_prepare, ...) are those of Model/Envelope.v.
    Executable definitions only; proofs are in Proofs/SendFlagsProofs.v. *)
 From RZ Require Import Base.Prelude Model.Codec Model.RouterMap Model.Envelope Model.FrameBatch Model.Balancer.
@@ -135,7 +135,7 @@ Definition router_send_multipart_fb (mandatory manual : bool) (peer : option str
            | None => Ok (if mandatory then SRErr else SRNothing)
            | Some s =>
                bind (strat_prepare_fb s manual idm payload) (fun w =>
-               Ok (SRWire (fb_list (fb_clear_last w))))
+               Ok (SRWire (fb_list (fb_norm w))))      (* flag loop over all wire frames (fix of C02 finding 4) *)
            end
        end).
 
